@@ -169,26 +169,27 @@ theorem C05_envelope_real (cols : List Col) (codec pageSize : Nat) (ops : List O
 
 /-- non-vacuity: a two-column history with a row-group boundary closes OK -/
 example : (fileOf (Carquet.Impl.FileReal.deps []) [⟨"a", .int32, .optional, 0⟩, ⟨"b", .boolean, .required, 0⟩] 0 64 "Carquet"
-    [.batch ⟨0, 3, some [1, 0, 1], [[1, 0, 0, 0], [2, 0, 0, 0]]⟩, .batch ⟨1, 3, none, [[1], [0], [1]]⟩, .newRowGroup,
-     .batch ⟨0, 1, none, [[7, 0, 0, 0]]⟩, .batch ⟨1, 1, none, [[0]]⟩]).2.getLast? = some .ok := by
+    [.batch ⟨0, 3, some [1, 0, 1], [[1, 0, 0, 0], [2, 0, 0, 0]], none⟩, .batch ⟨1, 3, none, [[1], [0], [1]], none⟩, .newRowGroup,
+     .batch ⟨0, 1, none, [[7, 0, 0, 0]], none⟩, .batch ⟨1, 1, none, [[0]], none⟩]).2.getLast? = some .ok := by
   decide +kernel
 
 /-- non-vacuity of `C05_written_table`: the same history is well formed, all its calls return
 OK, and the table it denotes is the expected one (two row groups) -/
-example : HistWF [.batch ⟨0, 3, some [1, 0, 1], [[1, 0, 0, 0], [2, 0, 0, 0]]⟩, .batch ⟨1, 3, none, [[1], [0], [1]]⟩, .newRowGroup,
-     .batch ⟨0, 1, none, [[7, 0, 0, 0]]⟩, .batch ⟨1, 1, none, [[0]]⟩] := by
+example : HistWF [.batch ⟨0, 3, some [1, 0, 1], [[1, 0, 0, 0], [2, 0, 0, 0]], none⟩, .batch ⟨1, 3, none, [[1], [0], [1]], none⟩, .newRowGroup,
+     .batch ⟨0, 1, none, [[7, 0, 0, 0]], none⟩, .batch ⟨1, 1, none, [[0]], none⟩] := by
   intro b hb
   simp only [List.mem_cons, Op.batch.injEq, List.mem_nil_iff, or_false, reduceCtorEq, false_or] at hb
-  rcases hb with h | h | h | h <;> subst h <;> exact ⟨by decide, by intro ds h; cases h <;> rfl⟩
+  rcases hb with h | h | h | h <;> subst h <;>
+    exact ⟨by decide, (by intro ds h; cases h <;> rfl), (by intro rs h; cases h)⟩
 
 example : ((fileOf (Carquet.Impl.FileReal.deps []) [⟨"a", .int32, .optional, 0⟩, ⟨"b", .boolean, .required, 0⟩] 0 64 "Carquet"
-    [.batch ⟨0, 3, some [1, 0, 1], [[1, 0, 0, 0], [2, 0, 0, 0]]⟩, .batch ⟨1, 3, none, [[1], [0], [1]]⟩, .newRowGroup,
-     .batch ⟨0, 1, none, [[7, 0, 0, 0]]⟩, .batch ⟨1, 1, none, [[0]]⟩]).2.all (· == .ok)) = true := by
+    [.batch ⟨0, 3, some [1, 0, 1], [[1, 0, 0, 0], [2, 0, 0, 0]], none⟩, .batch ⟨1, 3, none, [[1], [0], [1]], none⟩, .newRowGroup,
+     .batch ⟨0, 1, none, [[7, 0, 0, 0]], none⟩, .batch ⟨1, 1, none, [[0]], none⟩]).2.all (· == .ok)) = true := by
   decide +kernel
 
 example : tableOf [⟨"a", .int32, .optional, 0⟩, ⟨"b", .boolean, .required, 0⟩]
-    [.batch ⟨0, 3, some [1, 0, 1], [[1, 0, 0, 0], [2, 0, 0, 0]]⟩, .batch ⟨1, 3, none, [[1], [0], [1]]⟩, .newRowGroup,
-     .batch ⟨0, 1, none, [[7, 0, 0, 0]]⟩, .batch ⟨1, 1, none, [[0]]⟩] =
+    [.batch ⟨0, 3, some [1, 0, 1], [[1, 0, 0, 0], [2, 0, 0, 0]], none⟩, .batch ⟨1, 3, none, [[1], [0], [1]], none⟩, .newRowGroup,
+     .batch ⟨0, 1, none, [[7, 0, 0, 0]], none⟩, .batch ⟨1, 1, none, [[0]], none⟩] =
     [[⟨3, [1, 0, 1], [], [[1, 0, 0, 0], [2, 0, 0, 0]]⟩, ⟨3, [], [], [[1], [0], [1]]⟩],
      [⟨1, [1], [], [[7, 0, 0, 0]]⟩, ⟨1, [], [], [[0]]⟩]] := by
   decide +kernel
